@@ -1,6 +1,7 @@
 (* C01 — Bloom filter never returns a false negative. Statements only. *)
 From GX.Model Require Import Base Bloom.
-From GX.Proofs Require Import ListLemmas BloomProofs.
+From GX.Model Require Import Redis RedisBloom.
+From GX.Proofs Require Import ListLemmas BloomProofs RedisBloomProofs.
 
 Section Mem.
 (* any probe-position function: hence any hash, any size >= 1, any numHashes *)
@@ -41,8 +42,16 @@ Qed.
 Example C01_premises_hold : exists s, bloom_new_params 10 3 = Ok s.
 Proof. eexists; reflexivity. Qed.
 
+(* Redis-backed variant, on the Redis model itself (SETBIT / GETBIT on a string that grows on
+   demand, most significant bit first): for every position function, every store, every handle
+   whose bitset exists and every history of inserts before and after, the element is found *)
+Theorem C01_redis_no_false_negative : forall bpos s h xs1 x xs2, rb_nil h = false ->
+  rbloom_lookup bpos (rbrun bpos (snd (rbloom_insert bpos (rbrun bpos s h xs1) h x)) h xs2) h x = Ok true.
+Proof. exact redis_no_false_negative. Qed.
+
 Print Assumptions C01_mem_no_false_negative.
 Print Assumptions C01_mem_empty_all_absent.
 Print Assumptions C01_ctor_clamps.
 Print Assumptions C01_from_bitset_clamps.
 Print Assumptions C01_code_probes_nonempty_in_range.
+Print Assumptions C01_redis_no_false_negative.
